@@ -352,6 +352,7 @@ func verifModelBinaryWrite(w io.Writer, order binary.ByteOrder, data any) error 
 
 //@ func mergeStoredAndRemap returns (storedIndexOffset, rv, err)
 //@ thin
+//@ uses rankZero, rankStep, rankFull
 //@ requires w != nil
 //@ ensures chanClosed(closeCh) && !old(chanClosed(closeCh)) ==> err == seg.ErrClosed [C18]
 //@ ensures old(chanClosed(closeCh)) ==> chanClosed(closeCh)
@@ -359,6 +360,16 @@ func verifModelBinaryWrite(w io.Writer, order binary.ByteOrder, data any) error 
 //@ ensures $poolBalance == old($poolBalance) [C11]
 //@ ensures err == nil ==> len(rv) == len(segments) [C05]
 //@ loop 1 invariant len(rv) == $k && $k <= len(segments) [C05]
+// renumbering: the next new number is the number of survivors so far; inside a segment it advances by one per
+// surviving document, a dropped document gets the sentinel (sRank(D, d) = deleted documents below d)
+//@ wf requires dropsInRange(segments, drops)
+//@ wf requires forall i int, x uint32 :: {sHas(bmSet(drops[i]), x)} 0 <= i && i < len(segments) && drops[i] != nil && sHas(bmSet(drops[i]), x) ==> uint64(x) < segments[i].numDocs
+//@ loop 1 invariant int(newDocNum) == nsurv(row(segments), off(segments), row(drops), off(drops), fieldarr(SegmentBase.numDocs), ghostarr(bmSet), $k) [C05]
+//@ loop 1 invariant int(newDocNum) <= $k * 4294967296 && 0 <= $k [C05]
+//@ loop 1 invariant dropsInRange(segments, drops)
+//@ loop 2 invariant i <= segment.numDocs && segment.numDocs <= 0xffffffff && int(newDocNum) == int(entry(newDocNum)) + int(i) [C05]
+//@ loop 2 invariant forall j int :: {segNewDocNums[j]} 0 <= j && j < int(i) ==> int(segNewDocNums[j]) == int(entry(newDocNum)) + j [C05]
+//@ loop 3 invariant docNum <= segment.numDocs && int(newDocNum) == int(entry(newDocNum)) + int(docNum) - ite(dropsI != nil, sRank(bmSet(dropsI), int(docNum)), 0) [C05]
 //@ loop 1 invariant chanClosed(closeCh) == old(chanClosed(closeCh)) [C18]
 //@ loop 1 invariant poolOwned(vdc) && $poolBalance == old($poolBalance) + 1 [C11]
 //@ loop 3 invariant poolOwned(vdc) && $poolBalance == old($poolBalance) + 1 [C11]
@@ -448,7 +459,8 @@ func verifModelBinaryWrite(w io.Writer, order binary.ByteOrder, data any) error 
 //@ assert (*SegmentBase).visitStoredFields.visitor#2 : base($value) == base(uncompressed) && off($value) == off(uncompressed) + int(offset) && len($value) == int(l) && (numap == 0 ==> $pos == nil) && (numap > 0 ==> len($pos) == int(numap)) [C02]
 //@ loop 1 invariant !keepGoing ==> $visStopped
 //@ loop 1 invariant keepGoing ==> !$visStopped
-//@ modifies *, ghost poolOwned[vdc], ghost poolBalance, ghost visCalls, ghost visStopped
+// frame: the scratch context, decode buffers, and whatever the visitor passed in writes (resolved per call site)
+//@ modifies visitDocumentCtx.*[vdc], bytes.Reader.*, elems(uint8), elems(uint64), elems(any), alloc, ghost poolOwned[vdc], ghost poolBalance, ghost visCalls, ghost visStopped, closure visitor
 //@ end
 
 //@ func (*SegmentBase).VisitStoredFields returns (err)
@@ -748,6 +760,9 @@ func lemma1HitDiscriminator(docNum, normBits uint64) {
 //@ thin
 //@ tags [C07]
 //@ requires i != nil && l != nil && i.locReader != nil
+// a recycled Location reports exactly the array positions read for it (not those of its previous occupant)
+//@ local ensures err == nil ==> len(l.ap) == int(numArrayPos) && l.pos == pos && l.start == start && l.end == end [C07]
+//@ loop 1 invariant len(l.ap) == int(numArrayPos) && l.pos == pos && l.start == start && l.end == end && 0 <= k [C07]
 //@ modifies memUvarintReader.C, Location.*[l], elems(uint64), alloc, elems(any)
 //@ end
 
@@ -1003,7 +1018,7 @@ func lemmaUvLenRange(a []byte, o int) {}
 //@ pred storedOff(s, d) = be64(row(s.mem), off(s.mem) + int(s.storedIndexOffset) + 8*int(d))
 //@ pred storedOffI(s, i) = be64(row(s.mem), off(s.mem) + int(s.storedIndexOffset) + 8*i)
 //@ pred chwOK(c) = c != nil && c.w != nil && (typeis(c.w, ptr_CountHashWriter) ==> ptr_CountHashWriter(payload(c.w)) != c && ptr_CountHashWriter(payload(c.w)).w != nil && !typeis(ptr_CountHashWriter(payload(c.w)).w, ptr_CountHashWriter) && !typeis(ptr_CountHashWriter(payload(c.w)).w, ptr_bufWriter)) && (typeis(c.w, ptr_bufWriter) ==> ptr_bufWriter(payload(c.w)).w != nil)
-//@ pred dropsInRange(segments, drops) = len(drops) >= len(segments) && len(segments) <= 0x7fffffff && (forall i int :: 0 <= i && i < len(segments) ==> segments[i] != nil && segments[i].numDocs <= 0xffffffff) && (forall i int :: 0 <= i && i < len(segments) && drops[i] != nil ==> sCard(bmSet(drops[i])) <= int(segments[i].numDocs))
+//@ pred dropsInRange(segments, drops) = len(drops) >= len(segments) && len(segments) <= 0x7fffffff && (forall i int :: {segments[i]} 0 <= i && i < len(segments) ==> segments[i] != nil && segments[i].numDocs <= 0xffffffff) && (forall i int :: {segments[i]} {drops[i]} 0 <= i && i < len(segments) && drops[i] != nil ==> sCard(bmSet(drops[i])) <= int(segments[i].numDocs))
 //@ pred writerOK(w) = w != nil && (typeis(w, ptr_CountHashWriter) ==> chwOK(ptr_CountHashWriter(payload(w)))) && (typeis(w, ptr_bufWriter) ==> ptr_bufWriter(payload(w)).w != nil)
 //@ pred storedMetaLenLen(s, d) = uvLen(row(s.mem), off(s.mem) + int(storedOff(s, d)))
 //@ pred storedWF(s, d) = s.storedIndexOffset <= 0x3fffffffffffffff && d <= 0x0fffffffffffffff && storedOff(s, d) <= 0x3fffffffffffff00 && int(s.storedIndexOffset) + 8*int(d) + 8 <= len(s.mem) && int(storedOff(s, d)) + 20 <= len(s.mem) && uvOK(row(s.mem), off(s.mem) + int(storedOff(s, d))) && uvOK(row(s.mem), off(s.mem) + int(storedOff(s, d)) + storedMetaLenLen(s, d))
@@ -1332,6 +1347,23 @@ func lemmaSynonymCodeRoundTrip(synonymID, docID uint32) {
 //@ ensures r.synonyms != nil ==> bm64Empty(r.synonyms)
 //@ end
 
+// public constructors of iterators: a caller may hand back any iterator it got earlier as preallocation, including
+// the shared empty one; it must never reach the (re-)initialising code (checked as the callee's precondition)
+//@ func (*SynonymsList).Iterator returns (it)
+//@ thin
+//@ tags [C11,C12]
+//@ requires s != nil
+//@ ensures it != nil [C12]
+//@ end
+
+//@ func (*PostingsList).Iterator returns (it)
+//@ thin
+//@ tags [C07,C11]
+//@ requires p != nil
+//@ wf requires p.normBits1Hit == 0 && p.postings != nil ==> p.sb != nil
+//@ ensures it != nil [C07]
+//@ end
+
 //@ func (*SynonymsList).read returns (err)
 //@ thin
 //@ tags [C11,C12]
@@ -1426,6 +1458,15 @@ func lemmaSynonymCodeRoundTrip(synonymID, docID uint32) {
 //@ tags [C06]
 //@ assert (*chunkedContentCoder).Add#1 : $docNum == newDocNums[segmentI][docNum] [C06]
 //@ ensures old(newDocNums[segmentI][docNum]) == 0xffffffffffffffff ==> err == nil [C06]
+//@ end
+
+// an opened segment decodes a field's doc-value block bounds through a window wide enough for any offset
+// (a narrower window makes the decode fail for files beyond a size, and loadDvReaders ignores that error)
+//@ func (*Segment).getSectionDvOffsets returns (start, end, addr, err)
+//@ thin
+//@ tags [C03,C04]
+//@ assert encoding/binary.Uvarint#1 : len($buf) == 10 [C03,C04]
+//@ assert encoding/binary.Uvarint#2 : len($buf) == 10 [C03,C04]
 //@ end
 
 // opened segments: doc-value readers are loaded for every field id and every section
